@@ -6,7 +6,10 @@ package main
 import (
 	"crypto"
 	stded "crypto/ed25519"
+	"crypto/sha256"
 	"fmt"
+	"github.com/oasisprotocol/curve25519-voi/zzverif/disturb"
+	"strings"
 
 	"github.com/oasisprotocol/curve25519-voi/primitives/ed25519"
 	"github.com/oasisprotocol/curve25519-voi/primitives/ed25519/extra/cache"
@@ -32,6 +35,10 @@ var otherKey = ed25519.NewKeyFromSeed(make([]byte, 32)).Public().(ed25519.Public
 func runCase(r *mon.Run, c gen.EdCase) {
 	pk, msg, sig := mon.UnHex(c.PK), mon.UnHex(c.Msg), mon.UnHex(c.Sig)
 	facts := ref.Facts(pk, msg, sig, c.Dom2())
+	caseSel := sha256.Sum256(c.Key())[0]
+	if strings.HasPrefix(c.Fam, "ground-k/") {
+		r.Hist("family/" + c.Fam)
+	}
 	var key []byte
 	if facts.LenOK {
 		key = c.Key()
@@ -52,6 +59,11 @@ func runCase(r *mon.Run, c gen.EdCase) {
 		wantPanic := flags.NonCanonR && flags.Cofactorless
 		var got bool
 		r.Journal("c01 plain fl=%d %+v", fl, c)
+		// one verification in four is immediately preceded, on this goroutine, by an operation that fails (see package
+		// disturb): a decision may not depend on what the process did before
+		if sel := int(caseSel) + fl; sel%4 == 0 {
+			r.Hist("disturbed-before-verify/" + disturb.Ed25519(sel/4))
+		}
 		pan, pmsg := mon.Try(func() { got = ed25519.VerifyWithOptions(pk, msg, sig, opts) })
 		r.Eval(key)
 		if wantPanic {
@@ -142,18 +154,81 @@ func familyClass(f string) string {
 	return f
 }
 
+// terminates runs the verification entry points on one case under a loop-iteration budget. A case on which any of
+// them exceeds the budget is reported (the predicate gives an answer for every input; the library must, too) and
+// is kept out of the unbudgeted parallel phase, where it would only hang the process.
+const verifyTickBudget = 5_000_000
+
+func terminates(r *mon.Run, c gen.EdCase) bool {
+	pk, msg, sig := mon.UnHex(c.PK), mon.UnHex(c.Msg), mon.UnHex(c.Sig)
+	ok := true
+	for name, vo := range map[string]*ed25519.VerifyOptions{"Default": ed25519.VerifyOptionsDefault, "StdLib": ed25519.VerifyOptionsStdLib, "FIPS_186_5": ed25519.VerifyOptionsFIPS_186_5, "ZIP_215": ed25519.VerifyOptionsZIP_215} {
+		o := libOpts(0, c)
+		o.Verify = vo
+		for _, entry := range []string{"VerifyWithOptions", "VerifyExpandedWithOptions", "cache.VerifyWithOptions", "BatchVerifier"} {
+			if len(pk) != 32 && entry != "VerifyWithOptions" {
+				continue
+			}
+			ticks, exceeded, _, _ := guarded(verifyTickBudget, func() {
+				switch entry {
+				case "VerifyWithOptions":
+					ed25519.VerifyWithOptions(pk, msg, sig, o)
+				case "VerifyExpandedWithOptions":
+					if x, err := ed25519.NewExpandedPublicKey(pk); err == nil {
+						ed25519.VerifyExpandedWithOptions(x, msg, sig, o)
+					}
+				case "cache.VerifyWithOptions":
+					cache.NewVerifier(cache.NewLRUCache(1)).VerifyWithOptions(pk, msg, sig, o)
+				case "BatchVerifier":
+					bv := ed25519.NewBatchVerifier()
+					bv.AddWithOptions(pk, msg, sig, o)
+					bv.AddWithOptions(pk, msg, sig, o)
+					bv.Verify(nil)
+				}
+			})
+			r.Eval(nil)
+			r.Max("loop-ticks/"+entry, ticks)
+			r.Hist("termination/budgeted-calls")
+			if exceeded {
+				ok = false
+				r.Violate("does-not-terminate/"+entry, fmt.Sprintf("%s with preset %s executed more than %d loop iterations without returning (family %s); ordinary calls take a few thousand", entry, name, verifyTickBudget, c.Fam), c)
+			}
+		}
+	}
+	return ok
+}
+
 func main() {
 	r := mon.Start("C01", "crafted (key,msg,sig,variant) triples from adversarial families (honest, S+kL, S boundaries, R+T_j and A+T_j signed with the secret key, small-order/non-canonical A x R with S in {0,1}, undecodable, bit flips, bad lengths) x all 32 flag sets x plain/expanded entry points; non-trivial = the reference predicate gets past the signature-length gate; distinct = SHA-256 of (pk,msg,sig,variant,ctx)")
 	var c gen.EdCase
 	if r.LoadReplay(&c) {
-		runCase(r, c)
+		if terminates(r, c) {
+			runCase(r, c)
+		}
 		r.Finish()
 		return
 	}
 	rng := r.Rng("c01")
 	cases := gen.EdFamilies(rng, r.Pick(45, 400), r.Pick(400, 0))
 	r.Observe("cases", len(cases))
-	r.Parallel(len(cases), func(i int) { runCase(r, cases[i]) })
+	// phase 1 (one goroutine, loop-iteration budget armed): the searched-for challenge scalars and one case in 25
+	skip := map[int]bool{}
+	if !haveTicks {
+		r.HookMissing("loop-tick instrumentation (termination is then only covered by the wall-clock watchdog, whose firing is inconclusive)")
+	}
+	for i, c := range cases {
+		if strings.HasPrefix(c.Fam, "ground-k/") || i%25 == 0 {
+			if !terminates(r, c) {
+				skip[i] = true
+			}
+		}
+	}
+	// phase 2: every case, all flag sets and entry points, decided by the reference predicate
+	r.Parallel(len(cases), func(i int) {
+		if !skip[i] {
+			runCase(r, cases[i])
+		}
+	})
 	// every rejection rule and acceptance must have been observed, otherwise the run proves little
 	for _, want := range []string{"fl00/v0/accept", "fl00/v0/S>=L", "fl00/v0/A-small-order", "fl01/v0/R-small-order", "fl00/v0/A-noncanonical", "fl00/v0/R-noncanonical", "fl16/v0/eq-cofactorless-false", "fl00/v0/eq-cofactored-false", "fl24/v0/documented-panic"} {
 		if r.HistGet(want) == 0 {
